@@ -190,7 +190,7 @@ def check(ctx, rep):
     # ------------------------------------------------------------------ R02e
     for P in protos:
         can = prog.resolve_method(P, "canhandlerequest")
-        if can is None or can.cls is not P:
+        if can is None or not ctx.owns(P, can):
             continue
         summ = eff.summary(can, P)
         bad = sorted(e for e in summ if e.startswith(("GLOBAL_WRITE", "FS_", "EXEC", "EVAL")) or e in ("TIME", "RANDOM"))
